@@ -36,7 +36,27 @@ func runC19(c *core.Ctx) {
 
 // c19queuedBig: capacities around and above 64 (chunked implementations), limits
 // around multiples of 64, fewer / exactly / more values queued than the limit.
+// keeper remembers the slice returned by the previous RecvQueued call: the result is
+// the caller's, a later call must not change it (a pooled or shared scratch buffer would).
+type keeper struct {
+	res, snap []int
+	desc      string
+}
+
+func (k *keeper) check(c *core.Ctx, got []int, desc string, full bool) bool {
+	if k.res != nil && !eqSlice(k.res, k.snap) {
+		c.Violate("RecvQueued:earlier-result-changed", fmt.Sprintf("the slice returned by %s held %v; after the later call %s it holds %v", k.desc, k.snap, desc, k.res), nil)
+		return false
+	}
+	if !full && len(got) > 0 {
+		k.res, k.snap, k.desc = got, append([]int(nil), got...), desc
+	}
+	return true
+}
+
 func c19queuedBig(c *core.Ctx) {
+	var keep keeper
+	base := 100
 	k := int(c.Index - 48)
 	capa := []int{64, 65, 100, 129, 200, 300}[k%6]
 	closed := (k/6)%2 == 1
@@ -47,8 +67,9 @@ func c19queuedBig(c *core.Ctx) {
 				continue
 			}
 			ch := make(chan int, capa)
+			base += 1000 // other values in every call: a result that is overwritten later shows
 			for i := 0; i < fill; i++ {
-				ch <- 100 + i
+				ch <- base + i
 			}
 			if closed {
 				close(ch)
@@ -77,12 +98,15 @@ func c19queuedBig(c *core.Ctx) {
 			}
 			c.Count("queued_calls", 1)
 			c.Count("queued_big_capacity", 1)
+			if !keep.check(c, got, desc, full) {
+				return
+			}
 			if len(got) != want {
 				c.Violate(name+":count[big]", fmt.Sprintf("%s returned %d values, %d were queued and the limit is %d", desc, len(got), fill, limit), nil)
 				return
 			}
 			for i, v := range got {
-				if v != 100+i {
+				if v != base+i {
 					c.Violate(name+":order-or-invented[big]", fmt.Sprintf("%s: value %d is %d", desc, i, v), nil)
 					return
 				}
@@ -107,6 +131,8 @@ func c19queued(c *core.Ctx) {
 	closed := (c.Index/6)%2 == 1
 	full := (c.Index/12)%2 == 1 // RecvQueuedFull instead of RecvQueued
 	recvOnly := (c.Index/24)%2 == 1
+	var keep keeper
+	base := 100
 	for fill := 0; fill <= capa; fill++ {
 		limits := make([]int, 0, capa+6)
 		for limit := 0; limit <= capa+2; limit++ {
@@ -118,8 +144,9 @@ func c19queued(c *core.Ctx) {
 		}
 		for _, limit := range limits {
 			ch := make(chan int, capa)
+			base += 1000 // other values in every call: a result that is overwritten later shows
 			for i := 0; i < fill; i++ {
-				ch <- 100 + i
+				ch <- base + i
 			}
 			if closed {
 				close(ch)
@@ -173,13 +200,18 @@ func c19queued(c *core.Ctx) {
 			}
 			c.Count("queued_calls", 1)
 			c.Count("queued_"+cls, 1)
+			if len(got) == 0 || got[0] > -900 {
+				if !keep.check(c, got, desc, full) {
+					return
+				}
+			}
 			if len(got) != want {
 				c.Violate(name+":count["+cls+"]", fmt.Sprintf("%s returned %d values %v, %d were queued and the limit is %d", desc, len(got), got, fill, limit), nil)
 				return
 			}
 			for i, v := range got {
-				if v != 100+i {
-					c.Violate(name+":order-or-invented["+cls+"]", fmt.Sprintf("%s returned %v; queued values are 100.. in FIFO order", desc, got), nil)
+				if v != base+i {
+					c.Violate(name+":order-or-invented["+cls+"]", fmt.Sprintf("%s returned %v; queued values are consecutive numbers in FIFO order", desc, got), nil)
 					return
 				}
 			}
@@ -190,7 +222,7 @@ func c19queued(c *core.Ctx) {
 				return
 			}
 			for i := 0; i < rest; i++ {
-				if v := <-ch; v != 100+want+i {
+				if v := <-ch; v != base+want+i {
 					c.Violate(name+":rest-order["+cls+"]", fmt.Sprintf("%s: remaining value %d is %d", desc, i, v), nil)
 					return
 				}
